@@ -8,6 +8,8 @@ HARNESS = os.path.join(VERIF, 'harness')
 WORK = os.path.join(VERIF, 'work')
 EVIDENCE = os.path.join(VERIF, 'evidence')
 IMPL = os.path.join(HARNESS, 'target', 'debug', 'implrunner')
+HARNESS_LICHESS = os.path.join(VERIF, 'harness_lichess')
+IMPL_LICHESS = os.path.join(HARNESS_LICHESS, 'target', 'debug', 'inkayaku_verif_harness_lichess')
 DUMP = os.path.join(HARNESS, 'target', 'debug', 'dumpconsts')
 MODEL = os.path.join(LEAN, '.lake', 'build', 'bin', 'modeldriver')
 ALLOWED_AXIOMS = {'propext', 'Classical.choice', 'Quot.sound'}
@@ -44,10 +46,17 @@ def run(cmd, cwd=None, timeout=None, input_bytes=None):
     return p.returncode, p.stdout.decode('utf-8', 'replace')
 
 
-def build_impl():
+def build_impl(lichess=False):
     """cargo build of the harness against /repo's current working tree with --cfg inkayaku_verif; regenerates Gen"""
     with Lock('build'):
         t = time.time()
+        if lichess:
+            rc, out = run(['cargo', 'build', '--offline'], cwd=HARNESS_LICHESS, timeout=3600)
+            if rc != 0:
+                raise Broken('harness-lichess-build', 'the lichess harness no longer builds against /repo:\n' + out[-4000:])
+            rc, out = run([sys.executable, os.path.join(VERIF, 'tools', 'serde_schema.py'), REPO, os.path.join(LEAN, 'Inkayaku', 'Gen', 'LichessSchema.lean')], timeout=120)
+            if rc != 0:
+                raise Broken('serde_schema', 'the schema translator does not understand the current source:\n' + out[-4000:])
         lock_src = os.path.join(REPO, 'Cargo.lock')
         rc, out = run(['cargo', 'build', '--offline', '--bins'], cwd=HARNESS, timeout=1800)
         if rc != 0:
@@ -141,6 +150,11 @@ def run_lines(binary, args, lines, timeout=3600):
 
 def run_impl(lines, timeout=3600):
     """the implementation side; if the process dies (abort, stack overflow) bisect to the offending line"""
+    if lines and all(l.startswith('json ') for l in lines):
+        rc, out, err = run_lines(IMPL_LICHESS, [], lines, timeout)
+        if rc != 0 or len(out) != len(lines):
+            raise Broken('harness-lichess', 'lichess harness failed: ' + err[-2000:])
+        return out
     rc, out, err = run_lines(IMPL, [], lines, timeout)
     if rc == 0 and len(out) == len(lines):
         return out
